@@ -895,3 +895,54 @@ def one_shot_reuse(ctx, chk, rule, fns, label='operation'):
     if not bad:
         chk.ok(rule, '<functions>', f'{nvars} local(s) bound to one-shot iterables in {len(fns)} function(s)', detail='each consumed once, never inside a loop the binding precedes', evals=nvars)
     return nvars
+
+
+LAZY_WRAPPERS = {'iter', 'enumerate', 'zip', 'map', 'filter', 'reversed', 'chunk_iterator', 'itertools.chain', 'itertools.islice', 'yield_first_element', 'merge_sorted', 'detect_where_sorted'}
+SIZE_MUTATORS = {'add', 'remove', 'discard', 'pop', 'clear', 'update', 'difference_update', 'intersection_update', 'symmetric_difference_update', 'append', 'extend', 'insert',
+                 'popitem', 'setdefault', 'sort', 'reverse'}
+
+
+def mutation_during_iteration(ctx, chk, rule, fns):
+    """No for-loop changes the size of the collection it is (lazily) iterating over: `for x in S` / `for c in chunk_iterator(S, n)` with `S.remove(...)`,
+    `S.difference_update(...)` ... in the body raises "changed size during iteration" (sets, dicts) or skips elements (lists) -- but only once a second
+    batch / element is fetched, i.e. for request sizes the tests do not reach."""
+    nloops = 0
+    bad = 0
+    for f in fns:
+        if isinstance(f.node, ast.Lambda):
+            continue
+        for lp in walk_local(f.node):
+            if not isinstance(lp, ast.For):
+                continue
+            it = lp.iter
+            names = set()
+            stack = [it]
+            while stack:
+                e = stack.pop()
+                if isinstance(e, ast.Name):
+                    names.add(e.id)
+                elif isinstance(e, ast.Call) and norm(e.func).split('.')[-1] in {w.split('.')[-1] for w in LAZY_WRAPPERS}:
+                    stack.extend(e.args)
+                elif isinstance(e, ast.Call) and isinstance(e.func, ast.Attribute) and e.func.attr in ('items', 'keys', 'values') and isinstance(e.func.value, ast.Name):
+                    names.add(e.func.value.id)
+            if not names:
+                continue
+            nloops += 1
+            for st in lp.body:
+                for n in ast.walk(st):
+                    w = None
+                    if isinstance(n, ast.Call) and isinstance(n.func, ast.Attribute) and isinstance(n.func.value, ast.Name) and n.func.value.id in names and n.func.attr in SIZE_MUTATORS:
+                        w = n
+                    elif isinstance(n, ast.Delete) and any(isinstance(t, ast.Subscript) and isinstance(t.value, ast.Name) and t.value.id in names for t in n.targets):
+                        w = n
+                    elif isinstance(n, ast.AugAssign) and isinstance(n.target, ast.Name) and n.target.id in names and isinstance(n.op, (ast.Sub, ast.BitOr, ast.BitAnd, ast.Add)):
+                        w = n
+                    if w is not None:
+                        # a `break`/`return` right after the mutation ends the iteration: fine
+                        bad += 1
+                        chk.bad(rule, f.qualname, norm(w)[:90], f'`{norm(w)[:60]}` changes the size of a collection that the enclosing loop (line {lp.lineno}: `for ... in {norm(it)[:60]}`) is still iterating, '
+                                'possibly through a lazy wrapper: fetching the next element / batch raises RuntimeError (set, dict) or skips elements (list) -- only when the request is large enough for a second batch',
+                                where=f'{f.module.relpath}:{w.lineno}')
+    if not bad:
+        chk.ok(rule, '<functions>', f'{nloops} for-loop(s) over named collections', detail='no loop body changes the size of what the loop iterates', evals=nloops)
+    return nloops
